@@ -489,6 +489,9 @@ def _balanced_paren(s):
     return False
 
 
+NORETURN = ("__assert_fail", "abort", "exit", "_exit")
+
+
 class CFG:
     def __init__(self, fn):
         self.fn = fn
@@ -502,6 +505,11 @@ class CFG:
         self.preds = defaultdict(list)
         for b in c["blocks"]:
             ss = [s for s in b["succs"]]
+            # a block that ends in a call that does not return (failed assert, exit, abort) is a dead
+            # end, not a way to the function's exit: clang links it to EXIT, which would make every
+            # "on all paths to the exit" question depend on whether asserts are compiled in
+            if len(ss) == 1 and ss[0] == self.exit and any(e >= 0 and fn.nodes[e]["k"] == "Call" and fn.nodes[e].get("callee") in NORETURN for e in b["elems"]):
+                ss = []
             self.succs[b["id"]] = ss
             for s in ss:
                 if s is not None:
